@@ -59,10 +59,10 @@ type valInfo struct {
 type role int
 
 const (
-	roleHonest  role = iota
-	roleCrash        // honest code, isolated from the network from a PRNG-chosen envelope index on
-	roleByzStack     // harness-driven identity that also runs the honest stack
-	roleByzBare      // harness-driven identity without any charon component
+	roleHonest   role = iota
+	roleCrash         // honest code, isolated from the network from a PRNG-chosen envelope index on
+	roleByzStack      // harness-driven identity that also runs the honest stack
+	roleByzBare       // harness-driven identity without any charon component
 )
 
 func (r role) String() string {
@@ -71,37 +71,37 @@ func (r role) String() string {
 
 // plan is everything the PRNG decided for one case (recorded in witnesses and samples).
 type plan struct {
-	N, K, F       int
-	NumVals       int
-	Electra       bool
-	AttVersion    string
-	PropVersion   string
-	PropBlinded   bool
-	Kinds         []string // duty kinds of the case: attester, proposer, sync, exit
-	Roles         []string
-	StartDelayMs  []int // per node: late start
-	FetchDelayMs  []int // per node: beacon node latency of the stub fetcher
-	NoPropose     []bool
-	VCDelayMs     []int
-	HeadChoice    []int // per node: index into the pool of candidate head roots
-	SplitFFG      []bool
-	SyncChoice    []int // per node: index into the pool of sync block roots
-	ExitEpochOff  []int
-	NetProfile    string
-	DupProb       float64
-	CrashAt       map[int]int64
-	Partition     string
-	ExpireReplay  bool
-	ByzActions    int
-	MockVariant   int   // which of the shared beacon mocks (fork schedule variant)
-	Rotation      int   // slot mod n: logical node j runs as peer (j+Rotation) mod n, so that leader election does not depend on the wall-clock slot
-	ByzConsensus  []bool // per node: the Byzantine identity also misbehaves at consensus level
-	Slot          uint64
-	Epoch         uint64
-	ProposerVal   int
-	ExitVal       int
-	attVersion    eth2spec.DataVersion
-	propVersion   eth2spec.DataVersion
+	N, K, F      int
+	NumVals      int
+	Electra      bool
+	AttVersion   string
+	PropVersion  string
+	PropBlinded  bool
+	Kinds        []string // duty kinds of the case: attester, proposer, sync, exit
+	Roles        []string
+	StartDelayMs []int // per node: late start
+	FetchDelayMs []int // per node: beacon node latency of the stub fetcher
+	NoPropose    []bool
+	VCDelayMs    []int
+	HeadChoice   []int // per node: index into the pool of candidate head roots
+	SplitFFG     []bool
+	SyncChoice   []int // per node: index into the pool of sync block roots
+	ExitEpochOff []int
+	NetProfile   string
+	DupProb      float64
+	CrashAt      map[int]int64
+	Partition    string
+	ExpireReplay bool
+	ByzActions   int
+	MockVariant  int    // which of the shared beacon mocks (fork schedule variant)
+	Rotation     int    // slot mod n: logical node j runs as peer (j+Rotation) mod n, so that leader election does not depend on the wall-clock slot
+	ByzConsensus []bool // per node: the Byzantine identity also misbehaves at consensus level
+	Slot         uint64
+	Epoch        uint64
+	ProposerVal  int
+	ExitVal      int
+	attVersion   eth2spec.DataVersion
+	propVersion  eth2spec.DataVersion
 }
 
 type world struct {
@@ -168,10 +168,10 @@ func mustJSON(v any) string {
 func ceilDiv(a, b int) int { return (a + b - 1) / b }
 
 var (
-	preElectraAtt  = []eth2spec.DataVersion{eth2spec.DataVersionPhase0, eth2spec.DataVersionAltair, eth2spec.DataVersionBellatrix, eth2spec.DataVersionCapella, eth2spec.DataVersionDeneb}
-	proposalVers   = []eth2spec.DataVersion{eth2spec.DataVersionBellatrix, eth2spec.DataVersionCapella, eth2spec.DataVersionDeneb, eth2spec.DataVersionElectra, eth2spec.DataVersionFulu}
-	allKinds       = []string{"attester", "proposer", "sync", "exit"}
-	kindProb       = map[string]float64{"attester": 0.75, "proposer": 0.5, "sync": 0.55, "exit": 0.3}
+	preElectraAtt = []eth2spec.DataVersion{eth2spec.DataVersionPhase0, eth2spec.DataVersionAltair, eth2spec.DataVersionBellatrix, eth2spec.DataVersionCapella, eth2spec.DataVersionDeneb}
+	proposalVers  = []eth2spec.DataVersion{eth2spec.DataVersionBellatrix, eth2spec.DataVersionCapella, eth2spec.DataVersionDeneb, eth2spec.DataVersionElectra, eth2spec.DataVersionFulu}
+	allKinds      = []string{"attester", "proposer", "sync", "exit"}
+	kindProb      = map[string]float64{"attester": 0.75, "proposer": 0.5, "sync": 0.55, "exit": 0.3}
 )
 
 // makePlan draws every choice of the case from the PRNG.
